@@ -447,7 +447,8 @@ class Twin:
         for s in self.sides:
             if actor == "git":
                 # -A: unreachable objects are kept (loose); later commits may name them as parents
-                _git(s.path, "repack", "-A", "-d", "-q")
+                # (bare repositories default to repack.writeBitmaps=true: switched off, the op is purely logical)
+                _git(s.path, "repack", "-A", "-d", "-q", extra_cfg=["repack.writeBitmaps=false"])
                 s.ll.object_store._update_pack_cache()   # pack-cache staleness of a long-lived handle is C10's topic
             else:
                 s.ll.object_store.repack()
@@ -496,7 +497,7 @@ class Twin:
                 cfg = ["pack.writeBitmapHashCache=" + ("true" if "hash" in variant else "false"),
                        "pack.writeBitmapLookupTable=" + ("true" if "lookup" in variant else "false")]
                 _git(A.path, "repack", "-A", "-d", "-b", "-q", extra_cfg=cfg)
-                _git(self.N.path, "repack", "-A", "-d", "-q")   # the logical part of the op
+                _git(self.N.path, "repack", "-A", "-d", "-q", extra_cfg=["repack.writeBitmaps=false"])   # the logical part of the op
                 for sd in self.sides:
                     sd.ll.object_store._update_pack_cache()
             else:
@@ -1253,6 +1254,9 @@ _FAIL_CAP = 3   # reported failing pairs per (scenario, class)
 def checkpoint(ctx, tw: Twin, ops_so_far: list, label: str, sid: str, plan_rng, seen_cls: dict, extra_plan=None):
     import json
     plan = make_plan(tw, plan_rng, n_each=4)
+    stray = [str(f) for fs in _accel_files(tw.N.path).values() for f in fs]
+    if stray or (tw.N.path / "packed-refs").exists():
+        raise core.InfraError(f"harness bug: the 'without' repository acquired acceleration files: {stray or 'packed-refs'}")
     for k, items in (extra_plan or {}).items():
         # corpus witnesses name their queries by logical object names
         def conv(x):
@@ -1959,6 +1963,47 @@ def stream_gate_refs(ctx):
             ctx.disagree("fmt.refs." + what, {"line": ln}, mo, real)
 
 
+def stream_reach(ctx):
+    """`_collect_ancestors` (the walk behind GraphTraversalReachability, MissingObjectFinder, …) on random DAGs in
+    a MemoryObjectStore vs the model's `collectAncestors` (the 'stop at common' rule of F10's exclude finding)."""
+    from dulwich.object_store import MemoryObjectStore, _collect_ancestors
+    from dulwich.objects import Commit, Tree
+    rng = ctx.rng
+    lines, meta = [], []
+    for _ in range(ctx.budget(60)):
+        n = rng.randint(1, 9)
+        store = MemoryObjectStore()
+        t = Tree()
+        store.add_object(t)
+        ids, par = [], {}
+        for i in range(n):
+            k = 0 if i == 0 else rng.choice([0, 1, 1, 2, 2, 3])
+            ps = rng.sample(range(i), min(k, i))
+            c = Commit()
+            c.tree = t.id
+            c.parents = [ids[p] for p in ps]
+            c.author = c.committer = b"V <v@example.com>"
+            c.author_time = c.commit_time = 1000 + i
+            c.author_timezone = c.commit_timezone = 0
+            c.message = b"c%d" % i
+            store.add_object(c)
+            ids.append(c.id)
+            par[i] = ps
+        for _ in range(3):
+            heads = sorted({rng.randrange(n) for _ in range(rng.randint(1, 3))})
+            common = sorted({rng.randrange(n) for _ in range(rng.randint(0, 2))})
+            got, _bases = _collect_ancestors(store, [ids[h] for h in heads], frozenset(ids[c] for c in common))
+            real = _csv(sorted(ids.index(x) for x in got))
+            g = ";".join(f"{i}={_csv(par[i])}" for i in range(n))
+            lines.append(f"c14.reach.collect {g} {_csv(common)} {_csv(heads)}")
+            meta.append(real)
+    outs = ctx.driver.batch(lines)
+    for ln, real, mo in zip(lines, meta, outs):
+        ctx.count("fmt.reach", ln, True, "excl" if " - " not in ln else "plain")
+        if mo != real:
+            ctx.disagree("fmt.reach", {"line": ln}, mo, real)
+
+
 def run_corpus(ctx):
     """Negation witnesses / minimised past failures and always-on probes: scripted scenarios, replayed first on
     every run."""
@@ -1989,7 +2034,7 @@ def run(ctx: core.Ctx):
     ]
     _quiet()
     run_corpus(ctx)
-    for fn in (stream_ewah, stream_cg, stream_midx, stream_gate_refs):
+    for fn in (stream_ewah, stream_cg, stream_midx, stream_gate_refs, stream_reach):
         try:
             fn(ctx)
         except core.InfraError:
@@ -2016,7 +2061,7 @@ def search(ctx: core.Ctx):
     in a way no known finding explains."""
     import random
     _quiet()
-    for fn in (stream_ewah, stream_cg, stream_midx, stream_gate_refs):
+    for fn in (stream_ewah, stream_cg, stream_midx, stream_gate_refs, stream_reach):
         try:
             fn(ctx)
         except core.InfraError:
